@@ -17,6 +17,21 @@ static long gen_api(const std::string& op, int i, int j, const std::string& fmt)
         const Top& src = inst(i);
         Top& dst = inst(j); dst = src; gen_stamp(dst, j); return 0;
     }
+#if defined(VCFG_SER)
+    if (op == "saveload") {       // Boost.Serialization round trip into a freshly constructed machine
+        std::stringstream ss(std::ios::in | std::ios::out | std::ios::binary);
+        const Top& src = inst(i);
+        if (fmt == "binary") { boost::archive::binary_oarchive oa(ss); oa << src; }
+        else { boost::archive::text_oarchive oa(ss); oa << src; }
+        static std::vector<std::unique_ptr<Top>> graveyard2;
+        if (v[j]) graveyard2.push_back(std::move(v[j]));
+        v[j].reset(new Top());
+        if (fmt == "binary") { boost::archive::binary_iarchive ia(ss); ia >> *v[j]; }
+        else { boost::archive::text_iarchive ia(ss); ia >> *v[j]; }
+        gen_stamp(*v[j], j);
+        return 0;
+    }
+#endif
     (void)fmt;
     return -1;
 }
